@@ -6,6 +6,8 @@ props = tomllib.load(open(f"{H}/props.toml", "rb"))
 meta = tomllib.load(open(f"{H}/manifest_meta.toml", "rb"))
 checks = []
 for pid in sorted(props):
+    if pid not in meta["claimed"]:
+        continue  # unit under development: not claimed until its check is registered here
     m = meta["claimed"][pid]
     checks.append(dict(
         property_id=pid,
@@ -18,13 +20,14 @@ for pid in sorted(props):
         level_note=m["note"],
         technique=m["technique"],
     ))
-na = [dict(property_id=k, reason=v) for k, v in sorted(meta["not_applicable"].items()) if k not in props]
+claimed_ids = {c["property_id"] for c in checks}
+na = [dict(property_id=k, reason=v) for k, v in sorted(meta["not_applicable"].items()) if k not in claimed_ids]
 man = dict(
     version=1,
     setup_cmd="python3 tools/selftest.py",
     hooks=dict(guard="rescrv_blue_verif", enable="none: contracts are injected into a scratch copy; cfg(kani) is set by Kani itself; no guarded hook exists in /repo",
                baseline_off_cmd="cd /repo && cargo test --workspace --no-fail-fast --offline", source_commits=[], add_only=True),
-    engines=[dict(name="contracts", path="check", serves_properties=sorted(props),
+    engines=[dict(name="contracts", path="check", serves_properties=sorted(claimed_ids),
                   kind_free_text="contract-based deductive verification: Verus on functions extracted mechanically from /repo each run; Kani function contracts and full-domain harnesses injected into a scratch copy of the real crates")],
     checks=checks,
     notes=meta.get("notes", ""),
